@@ -27,18 +27,19 @@ type Ev struct {
 type GateSpec struct {
 	Kind      string `json:"kind"`
 	Nth       int    `json:"nth"`
-	Partition int32  `json:"partition"` // -1 any (pp.* / bp.recv: the message's partition)
-	Retries   int    `json:"retries"`   // -1 any (message retries)
-	Data      bool   `json:"data"`      // only application messages (flags == 0)
+	Partition int32  `json:"partition"`     // -1 any (pp.* / bp.recv: the message's partition)
+	Retries   int    `json:"retries"`       // -1 any (message retries)
+	Data      bool   `json:"data"`          // only application messages (flags == 0)
+	Fin       bool   `json:"fin,omitempty"` // only fin markers ("chasers")
 }
 
 type gate struct {
-	spec     GateSpec
-	reached  chan struct{}
-	release  chan struct{}
-	once     sync.Once
-	hit      int
-	wasHeld  bool
+	spec    GateSpec
+	reached chan struct{}
+	release chan struct{}
+	once    sync.Once
+	hit     int
+	wasHeld bool
 }
 
 func (g *gate) Release() { g.once.Do(func() { close(g.release) }) }
@@ -94,6 +95,9 @@ func (g *gate) matches(e *sarama.VerifProdEvent) bool {
 		return false
 	}
 	if g.spec.Data && (e.Msg == nil || e.Msg.Flags != 0) {
+		return false
+	}
+	if g.spec.Fin && (e.Msg == nil || e.Msg.Flags&2 == 0) {
 		return false
 	}
 	return true
